@@ -170,8 +170,7 @@ class WriterHarness(thrx.Harness):
     from twisted.python import log as tlog
     tlog.addObserver(observer)
     self.cache = carbon.cache.MetricCache()
-    self.lock = thrx.SchedLock(s, 'cache')
-    self.cache.lock = self.lock
+    self.lock = thrx.replace_locks(self.cache, s)
     real_drain = self.cache.drain_metric
 
     def drain_metric():
